@@ -2,6 +2,7 @@
    lines are those of the topic-history runner (delegated to R_topic); ops:
      op <N|Fk> sub|leave|pub|getdata|getdesc|unload|restart ...   one request (RReq)
      op N timeout | hubunreg | zpub <i> <sid> <content> <noecho> | zexit <i>
+     op N hubunregmid <sid> <content> <noecho> | zfinish <i>
      op N burst <held sids a,b|-> <sid> <content> <noecho> ...     k publishes back to back
    Every request goes through the extracted write-loop model [wstep]: WDo for the request,
    WDrain steps for the sessions - held sessions are drained only after the whole burst.
@@ -66,7 +67,8 @@ let block (invalid : bool) (w : wstate) (issued0 : int) (calls : int) : string =
          @ List.sort compare (List.map (fun (sid, (u, bkg)) ->
               Printf.sprintf "cache sess %s user=%d bkg=%s" (string_of_n sid) (int_of_n u) (b2s bkg)) c.c_sess))
     @ List.mapi (fun i z ->
-        Printf.sprintf "zombie %d lastid=%s deleted=%s sess=%s" i (string_of_z z.z_ca.c_lastid) (b2s z.z_deleted)
+        Printf.sprintf "zombie %d lastid=%s deleted=%s busy=%s sess=%s" i (string_of_z z.z_ca.c_lastid) (b2s z.z_deleted)
+          (match z.z_inflight with Some _ -> "1" | None -> "0")
           (String.concat "," (List.sort compare (List.map (fun (sid, _) -> string_of_n sid) z.z_ca.c_sess)))) r.r_zomb)
 
 let parse_held (w : string) : BinNums.coq_N list =
@@ -107,6 +109,8 @@ let handle (w : string list) : string =
       | "hubunreg", [] -> one RHubUnreg
       | "zpub", [i; sid; content; noecho] -> one (RZPub (nat_of_int (int_of_string i), n sid, n content, noecho = "1"))
       | "zexit", [i] -> one (RZExit (nat_of_int (int_of_string i)))
+      | "hubunregmid", [sid; content; noecho] -> one (RHubUnregMid (n sid, n content, noecho = "1"))
+      | "zfinish", [i] -> one (RZFinish (nat_of_int (int_of_string i)))
       | "burst", held :: rest ->
         let held = parse_held held in
         burst_calls := 0;
@@ -127,7 +131,8 @@ let handle (w : string list) : string =
      | Some w1 ->
        rs := Some w1.w_r;
        let calls = match kind, args with
-         | ("timeout" | "hubunreg" | "zexit"), _ -> 0
+         | ("timeout" | "hubunreg" | "zexit" | "hubunregmid"), _ -> 0
+         | "zfinish", _ -> ncalls w1
          | "zpub", _ -> if w1.w_r.r_issued == r0.r_issued || List.length w1.w_r.r_issued = issued0 then 0 else ncalls w1
          | "burst", _ -> !burst_calls
          | ("unload" | "restart"), _ -> ncalls w1
